@@ -83,7 +83,7 @@ GROUP = dict(
                    '+ 3 sets with one candidate absent + 1 with all absent)); 123318 cases'),
         dict(name='jar_and_mappings_agree', props=['C14'], tier='quick', timeout=900,
              text='For tables whose entries all apply to the jar, the real nest_jar and the real apply_nests_to_mappings give every class (identified by SourceFile / comment marks, the created enclosing class included) the same name, '
-                  'and every jar entry is stored under the name of the class it holds.',
+                  'and every jar entry is stored under the name of the class it holds. The same rows in the opposite order (inner nests listed before their enclosing nests) give the mappings the same names.',
              bound='jar {p/U, p/H, p/C1..p/C4}, mappings for all of them and for p/M; the 9570 tables over 3 candidates x 7 variants {0, 1, 3, 5, 8, 9, 12} + the 3150 tables over 4 candidates x {inner derived, anonymous in m()V} that list p/C4; '
                    '1338 tables with an entry that does not apply are skipped; 11382 cases'),
         # outside the text of C14 (a cyclic table has no nested names at all): kept in the harness as a robustness probe, not an obligation of any property
